@@ -444,7 +444,7 @@ func constInt64(k *types.Const) (int64, bool) {
 
 func checkC12(c *Ctx) {
 	c.Rule("C12.ord", "dropUselessWidthGadget, walked under all 13 weak orderings of (context width w, gadget width, argument width), drops the gadget exactly when gadget >= min(argument, w) - i.e. when truncating/extending twice equals doing it once - and never reaches its panic")
-	c.Rule("C12.keep", "purgeWidthGadgetsKeepWidth drops a top-level gadget only on the edge where it is a gadget and its argument has the same width")
+	c.Rule("C12.keep", "purgeWidthGadgetsKeepWidth, walked concretely for chains of up to two top-level gadgets (is a gadget / argument has the same width), drops exactly the leading gadgets whose argument has the same width, returns the last argument (or the purged expression itself) and reports whether anything changed")
 	c.Rule("C12.ctx", "every pruneUselessWidthGadgets(x, w) call prunes a child of a Binary/Less node in the context e.Width() of that node; the address of a MemLoad keeps its own width and is never pruned in a narrowing context")
 	c.Rule("C12.rebuild", "purgeWidthGadgets rebuilds Binary, Less and MemLoad homomorphically from all purged children")
 	c.Rule("C12.setwidth", "setWidth, walked per node type under the 3 orderings of (w, e.Width()): returns the node itself when equal; Const is re-made with NewConst(e.Bytes(), w); RegLoad is re-made with NewRegLoad(e.Key(), w) only when w < e.Width(); Binary/Less/MemLoad (and a widened RegLoad) fall back; SetWidth falls back to NewWidthGadget(ex, w)")
@@ -543,61 +543,100 @@ func checkC12(c *Ctx) {
 		}
 	}
 
-	// --- C12.keep
+	// --- C12.keep: walked concretely for chains of top-level gadgets
 	if k := anchor(c, pkgXform+".purgeWidthGadgetsKeepWidth"); k != nil {
+		type round struct{ ok, eq bool }
+		scenarios := [][]round{
+			{{false, false}},
+			{{true, false}},
+			{{true, true}, {false, false}},
+			{{true, true}, {true, false}},
+			{{true, true}, {true, true}, {false, false}},
+		}
+		isWGA := func(v ssa.Value) *ssa.Call {
+			call, ok := v.(*ssa.Call)
+			if ok && FuncNameIs(call.Call.StaticCallee(), pkgTools+".WidthGadgetArg") {
+				return call
+			}
+			return nil
+		}
 		n := 0
-		for _, b := range k.Blocks {
-			// a block that jumps back to a loop header carrying the gadget argument in a phi
-			for _, s := range b.Succs {
-				if !s.Dominates(b) {
-					continue
-				}
-				for _, in := range s.Instrs {
-					ph, ok := in.(*ssa.Phi)
-					if !ok {
-						continue
+		for si, sc := range scenarios {
+			for _, nested := range []bool{false, true} {
+				calls := 0
+				var vl *Valuation
+				cur := func() round {
+					if calls >= 1 && calls <= len(sc) {
+						return sc[calls-1]
 					}
-					for i, p := range s.Preds {
-						if p != b {
-							continue
-						}
-						bd, isArg := Match(ph.Edges[i], ExtractN(0, CallTo(pkgTools+".WidthGadgetArg", Capture("cur", Any()))))
-						if !isArg {
-							continue
-						}
-						n++
-						cur := bd.M["cur"]
-						argV := Unwrap(ph.Edges[i])
-						okSeen, eqSeen := false, false
-						for _, g := range GuardsOf(b) {
-							if ex, isEx := g.Cond.(*ssa.Extract); isEx && ex.Index == 1 && ex.Tuple == argV.(*ssa.Extract).Tuple && g.Outcome {
-								okSeen = true
+					return round{}
+				}
+				vl = &Valuation{Bool: func(v ssa.Value) (bool, bool) {
+					switch x := v.(type) {
+					case *ssa.Extract:
+						if call, ok := x.Tuple.(*ssa.Call); ok && x.Index == 1 {
+							if isWGA(call) != nil {
+								return cur().ok, true
 							}
-							if bo, isBin := g.Cond.(*ssa.BinOp); isBin && (bo.Op == token.EQL || bo.Op == token.NEQ) {
-								isW := func(v, of ssa.Value) bool {
-									return matches(v, Invoke("Width", func(x ssa.Value, _ *Bind) bool { return Unwrap(x) == Unwrap(of) }))
-								}
-								if (isW(bo.X, argV) && isW(bo.Y, cur)) || (isW(bo.X, cur) && isW(bo.Y, argV)) {
-									if (bo.Op == token.EQL) == g.Outcome {
-										eqSeen = true
-									}
-								}
+							if f := call.Call.StaticCallee(); f != nil && f.Name() == "purgeWidthGadgets" {
+								return nested, true
 							}
 						}
-						key := ShortName(k) + "/drop-equal-width-only"
-						switch {
-						case !okSeen:
-							c.Fail("C12.keep", key, c.Prog.FuncPos(k), "the top-level expression is replaced by its argument without having been recognised as a width gadget")
-						case !eqSeen:
-							c.Fail("C12.keep", key, c.Prog.FuncPos(k), "a top-level gadget is dropped although argument and gadget widths may differ (the expression's width changes)")
-						default:
-							c.Pass("C12.keep", key, c.Prog.FuncPos(k), "")
+					case *ssa.BinOp:
+						if x.Op == token.EQL || x.Op == token.NEQ {
+							isW := func(v ssa.Value) bool {
+								call, ok := v.(*ssa.Call)
+								return ok && call.Call.IsInvoke() && call.Call.Method.Name() == "Width"
+							}
+							if isW(x.X) && isW(x.Y) {
+								return cur().eq == (x.Op == token.EQL), true
+							}
 						}
 					}
+					return false, false
+				}}
+				vl.Visit = func(in ssa.Instruction) {
+					if v, ok := in.(ssa.Value); ok && isWGA(v) != nil {
+						calls++
+					}
 				}
+				res := vl.Walk(k.Blocks[0], nil)
+				n++
+				drops := 0
+				for _, r := range sc {
+					if r.ok && r.eq {
+						drops++
+					} else {
+						break
+					}
+				}
+				key := fmt.Sprintf("%s/chain#%d(nested=%v)", ShortName(k), si, nested)
+				why := ""
+				switch {
+				case !res.OK:
+					why = "the function cannot be followed: " + res.Why
+				case calls != drops+1:
+					why = fmt.Sprintf("%d top-level gadgets with an argument of the same width are followed by one that is not: the argument is asked for %d times, expected %d", drops, calls, drops+1)
+				default:
+					root := Unwrap(res.RetVal[0])
+					var fromWGA bool
+					if ex, ok := root.(*ssa.Extract); ok {
+						fromWGA = isWGA(ex.Tuple) != nil
+					}
+					if fromWGA != (drops > 0) {
+						if drops > 0 {
+							why = "a top-level gadget whose argument has the same width is not dropped"
+						} else {
+							why = "the top-level expression is replaced by a gadget argument although it is not a gadget of the same width (the expression's width changes)"
+						}
+					} else if ch, known := res.RetBool[1]; !known || ch != (drops > 0 || nested) {
+						why = "the reported `changed` flag does not say whether anything was dropped"
+					}
+				}
+				c.Oblige("C12.keep", key, c.Prog.FuncPos(k), why == "", why)
 			}
 		}
-		c.RequireCount("C12.keep loop back-edge", n, 1)
+		c.RequireCount("C12.keep chains walked", n, 10)
 	}
 
 	// --- C12.ctx / rebuild / exh
@@ -771,9 +810,8 @@ func checkC12(c *Ctx) {
 
 	// --- C12.gadget
 	nwg := anchor(c, pkgTools+".NewWidthGadget")
-	wg := anchor(c, pkgTools+".widthGadget")
 	wga := anchor(c, pkgTools+".WidthGadgetArg")
-	if nwg != nil && wg != nil && wga != nil {
+	if nwg != nil && wga != nil {
 		ep := c.Prog.SSAPkg[ExprPkg]
 		addV := int64(-1)
 		if ep != nil && ep.Const("Add") != nil {
@@ -794,39 +832,70 @@ func checkC12(c *Ctx) {
 			}
 		}
 		c.Oblige("C12.gadget", ShortName(nwg), c.Prog.FuncPos(nwg), okBuild && addV >= 0, "NewWidthGadget is not NewBinary(Add, e, Zero, w): adding zero at width w is what makes it a pure width change")
-		// widthGadget: true only if Binary, Op()==Add, Arg2 is Const equal to Zero
-		seenOp, seenZero := false, false
-		for _, b := range wg.Blocks {
-			for _, in := range b.Instrs {
-				if bo, ok := in.(*ssa.BinOp); ok && (bo.Op == token.NEQ || bo.Op == token.EQL) {
-					if matches(bo.X, Method("Op", Any())) && matches(bo.Y, IntPat(addV)) {
-						seenOp = true
+		// WidthGadgetArg (with the helpers it calls), walked concretely over the
+		// 16 combinations of: is a Binary, its operator is Add, its second
+		// argument is a constant, that constant equals Zero. It reports a gadget
+		// - and returns the Binary's first argument - exactly when all four hold.
+		nw := 0
+		for mask := 0; mask < 16; mask++ {
+			isBin, opAdd, isConst, isZ := mask&1 != 0, mask&2 != 0, mask&4 != 0, mask&8 != 0
+			var vl *Valuation
+			vl = &Valuation{
+				Enter: SamePackage(wga),
+				Int: func(v ssa.Value) (int64, bool) {
+					if call, ok := v.(*ssa.Call); ok && call.Call.StaticCallee() != nil && call.Call.StaticCallee().Name() == "Op" {
+						if opAdd {
+							return addV, true
+						}
+						return addV + 1, true
 					}
-				}
-				if call, ok := in.(*ssa.Call); ok {
-					if f := call.Call.StaticCallee(); f != nil && f.Name() == "Equal" && len(call.Call.Args) == 2 {
-						if matches(call.Call.Args[0], TypeAssertOf("pkg/expr.Const", Method("Arg2", Any()))) && isZero(call.Call.Args[1], nil) {
-							seenZero = true
+					return 0, false
+				},
+				Bool: func(v ssa.Value) (bool, bool) {
+					switch x := v.(type) {
+					case *ssa.Extract:
+						if ta, ok := x.Tuple.(*ssa.TypeAssert); ok && x.Index == 1 {
+							switch {
+							case TypeNameIs(ta.AssertedType, "pkg/expr.Binary"):
+								return isBin, true
+							case TypeNameIs(ta.AssertedType, "pkg/expr.Const"):
+								return isConst, true
+							}
+						}
+					case *ssa.Call:
+						if f := x.Call.StaticCallee(); f != nil && f.Name() == "Equal" && len(x.Call.Args) == 2 && (isZero(x.Call.Args[1], nil) || isZero(x.Call.Args[0], nil)) {
+							return isZ, true
 						}
 					}
-				}
+					return false, false
+				},
 			}
-		}
-		c.Oblige("C12.gadget", ShortName(wg), c.Prog.FuncPos(wg), seenOp && seenZero, "widthGadget does not test Op()==Add and Arg2()==Zero: it would recognise (and the purge would drop) operations that are not width gadgets, or miss the ones NewWidthGadget builds")
-		okArg := false
-		for _, b := range wga.Blocks {
-			if ret, ok := b.Instrs[len(b.Instrs)-1].(*ssa.Return); ok && matches(ret.Results[1], BoolPat(true)) {
-				okArg = matches(ret.Results[0], Method("Arg1", TypeAssertOf("pkg/expr.Binary", ParamN(0))))
-				g := false
-				for _, gd := range GuardsOf(b) {
-					if matches(gd.Cond, CallTo(pkgTools+".widthGadget", ParamN(0))) && gd.Outcome {
-						g = true
-					}
-				}
-				okArg = okArg && g
+			res := vl.Walk(wga.Blocks[0], nil)
+			nw++
+			key := fmt.Sprintf("%s/(binary=%v, op is Add=%v, arg2 constant=%v, arg2 is Zero=%v)", ShortName(wga), isBin, opAdd, isConst, isZ)
+			want := isBin && opAdd && isConst && isZ
+			why := ""
+			got, known := res.RetBool[1]
+			switch {
+			case !res.OK:
+				why = "the function cannot be followed: " + res.Why
+			case func() bool { _, p := res.End.(*ssa.Panic); return p }():
+				why = "the function panics"
+			case !known:
+				why = "the result cannot be evaluated"
+			case got != want:
+				why = fmt.Sprintf("reported as a width gadget: %v, expected %v (it would drop operations that are not width gadgets, or miss the ones NewWidthGadget builds)", got, want)
+			case want && !matches(vl.Root(res.RetVal[0]), Method("Arg1", func(x ssa.Value, _ *Bind) bool {
+				return DependsOn(x, func(y ssa.Value) bool {
+					ta, ok := y.(*ssa.TypeAssert)
+					return ok && TypeNameIs(ta.AssertedType, "pkg/expr.Binary")
+				})
+			})):
+				why = "the argument returned is not Arg1() of the gadget"
 			}
+			c.Oblige("C12.gadget", key, c.Prog.FuncPos(wga), why == "", why)
 		}
-		c.Oblige("C12.gadget", ShortName(wga), c.Prog.FuncPos(wga), okArg, "WidthGadgetArg does not return e.(Binary).Arg1() under widthGadget(e)")
+		c.RequireCount("C12.gadget combinations walked", nw, 16)
 	}
 }
 
